@@ -188,6 +188,21 @@ def work(exes, family, start, n):
                     events.append(json.loads(line))
                 except ValueError:
                     pass
+        if crash is not None and crash.timeout:
+            # re-run once with a generous budget before calling it a hang (these plans have a handful of atoms)
+            out, crash = run_history(exes[variant], case["text"], upt, seed, 160, p_delay, p_fail, timeout=300)
+            if crash is not None and crash.timeout:
+                part.case(fp, True, {"family": family, "units_per_tick": upt, "p_delay": p_delay, "p_fail": p_fail, "seed": seed, "program": case["text"][:800]})
+                part.violation("executor/no-termination", "executing the plan does not finish within 60 s nor, re-run, within 300 s (%s build)" % variant,
+                               {"family": family, "program": case["text"], "units_per_tick": upt, "p_delay": p_delay, "p_fail": p_fail, "seed": seed, "variant": variant})
+                continue
+            events = []
+            for line in out.split("\n"):
+                if line.startswith("{"):
+                    try:
+                        events.append(json.loads(line))
+                    except ValueError:
+                        pass
         if crash is not None:
             if crash.timeout:
                 part.inconc("history did not finish in 60 s")
